@@ -660,7 +660,17 @@ def build(world, rt, name='w', tol=None, reorder=False, problem_kwargs=None):
         if '_' in s['ln']:
             grp.options['assembled_jac_type'] = s['ln'].split('_')[1]
         if s['ln'].split('_')[0] in ('lnbgs', 'lnbj', 'krylov'):
-            ln.options['maxiter'] = 200
+            # A block solver that does not meet its tolerance (its norm counts subsystems relevance skips, see
+            # below) spends maxiter sweeps on every call; nested inside another block solver that multiplies
+            # (200 x 200 inner solves per right-hand side took a single run beyond two minutes).  The worlds
+            # contract by >= 2 per sweep, so inner levels get fewer sweeps; an inexact inner solve only costs
+            # the outer level sweeps.
+            anc, nblock = world['groups'][gname]['parent'] if gname else None, 0
+            while anc is not None:
+                if world['solvers'].get(anc, {'ln': ''})['ln'].split('_')[0] in ('lnbgs', 'lnbj'):
+                    nblock += 1
+                anc = world['groups'][anc]['parent'] if anc else None
+            ln.options['maxiter'] = (200, 60, 40)[min(nblock, 2)]
             # GMRES stops on the residual of the solver-scaled system; with ref/res_ref scaling of 1e2 and
             # derivative entries of 1e-4 an rtol of 1e-8 is visible at the 1e-4 relative level in physical
             # totals, so Krylov is converged as tightly as the block solvers
